@@ -25,35 +25,21 @@ def _conj(e):
 def hash_conflict_definition(ctx: Ctx, rep: Report, rid: str):
     """SyncEntry.hash_conflict() is true exactly when both sides carry a hash and a path and BOTH hashes differ from their
     last-synced value - in particular an object that was never synced (no sync_hash) can conflict."""
+    from sa import predform
     f = ctx.prog.func("SyncEntry.hash_conflict")
-    atoms = set()
-    shape_ok = True
-    rets = [n for n in ctx.own_nodes(f) if isinstance(n, ast.Return)]
-    ifs = [n for n in ctx.own_nodes(f) if isinstance(n, ast.If)]
-    main = [r for r in rets if not (isinstance(r.value, ast.Constant) and r.value.value is False)]
-    if len(main) != 1:
-        shape_ok = False
-    else:
-        conds = []
-        for i in ifs:
-            if any(x is main[0] for b in i.body for x in ast.walk(b)):
-                conds += _conj(i.test)
-        conds += _conj(main[0].value)
-        for c in conds:
-            if isinstance(c, ast.Compare) and len(c.ops) == 1 and isinstance(c.ops[0], ast.NotEq) and isinstance(c.left, ast.Attribute) and isinstance(c.comparators[0], ast.Attribute):
-                l, r = c.left, c.comparators[0]
-                ml, mr = pat.match("self[$I]", l.value), pat.match("self[$I]", r.value)
-                if ml is not None and mr is not None and isinstance(ml["I"], ast.Constant) and isinstance(mr["I"], ast.Constant) and ml["I"].value == mr["I"].value:
-                    atoms.add("NE%s(%s)" % (ml["I"].value, ",".join(sorted([l.attr, r.attr]))))
-                    continue
-            if isinstance(c, ast.Attribute) and isinstance(c.value, ast.Subscript) and isinstance(c.value.slice, ast.Constant) and pat.match("self[$I]", c.value) is not None:
-                atoms.add("T%s(%s)" % (c.value.slice.value, c.attr))
-                continue
-            atoms.add("?" + ast.unparse(c))
-    want = {"T0(hash)", "T1(hash)", "T0(path)", "T1(path)", "NE0(hash,sync_hash)", "NE1(hash,sync_hash)"}
-    rep.check(rid, "hash_conflict|definition", f, shape_ok and atoms == want, "conflict = both sides have hash and path, and both hashes differ from the last-synced ones",
+    s_ = f.params()[0]
+    try:
+        got = predform.dnf(predform.formula(f.node))
+    except predform.Undecided as e:
+        rep.error("rule=%s reason=undecided: hash_conflict is no longer a plain predicate (%s)" % (rid, e))
+        return
+    wants = []
+    for (a0, a1) in (("0", "1"), ("LOCAL", "REMOTE")):
+        wants.append(predform.dnf(predform.parse(("{s}[{a}].hash and {s}[{b}].hash and {s}[{a}].path and {s}[{b}].path and {s}[{a}].hash != {s}[{a}].sync_hash "
+                                                  "and {s}[{b}].hash != {s}[{b}].sync_hash").format(s=s_, a=a0, b=a1))))
+    rep.check(rid, "hash_conflict|definition", f, got in wants, "conflict = both sides have hash and path, and both hashes differ from the last-synced ones",
               "hash_conflict() is now [%s], expected [%s]: e.g. two never-synced files of the same path are not seen as a conflict and one version is uploaded over the other"
-              % (" and ".join(sorted(atoms)), " and ".join(sorted(want))))
+              % (predform.show(got)[:400], predform.show(wants[0])[:400]))
 
 
 def refresh_marks_changed(ctx: Ctx, rep: Report, rid: str):
@@ -267,30 +253,42 @@ def data_rows_follow_storage(ctx: Ctx, rep: Report, rid: str):
 
 
 def first_init_completes_before_flag(ctx: Ctx, rep: Report, rid: str):
-    """EventManager._do_first_init: `_first_do = False` is the LAST effect of the block - no provider / state call can run (and fail) after
-    it, so a first step that failed is repeated in full (the stored cursor is pushed into the provider again)."""
-    f = ctx.prog.func("EventManager._do_first_init")
-    g = ctx.cfg(f)
-    st = [n for n in g.nodes if node_stores_attr(n, "_first_do", "False")]
-    if not st:
-        raise AnalysisError("_do_first_init no longer clears _first_do")
+    """The first-step block of the event manager (`if self._first_do:` - in _do_first_init, or wherever it was inlined): `_first_do = False` is
+    the LAST effect of the block - no provider / state call can run (and fail) after it, so a first step that failed is repeated in full."""
+    em = ctx.prog.cls("EventManager")
+    found = None
+    for f in em.methods.values():
+        if isinstance(f.node, ast.Lambda):
+            continue
+        for n in ctx.own_nodes(f):
+            if isinstance(n, ast.If) and pat.match("self._first_do", n.test) is not None:
+                found = (f, n.body)
+        # guard-clause form: `if not self._first_do: return` - the block is the rest of the function body
+        body = f.node.body
+        for i, n in enumerate(body):
+            if isinstance(n, ast.If) and pat.match("not self._first_do", n.test) is not None and len(n.body) == 1 and isinstance(n.body[0], ast.Return) and not n.orelse:
+                found = (f, body[i + 1:])
+    if found is None:
+        raise AnalysisError("the first-step block (`if self._first_do:`) of the event manager was not found")
+    f, block = found
+    idx = [i for i, s in enumerate(block) if isinstance(s, ast.Assign) and pat.match("self._first_do = False", s) is not None]
+    nested = [s for s in ast.walk(ast.Module(body=list(block), type_ignores=[])) if isinstance(s, ast.Assign) and pat.match("self._first_do = False", s) is not None]
+    if not nested:
+        raise AnalysisError("the first-step block no longer clears _first_do")
 
-    def effect(n):
-        r = cfg_root(n)
-        if r is None:
-            return False
-        for s in ctx.sites(f):
-            if s.kind in ("call", "setter", "setattr") and any(x is s.node for x in ast.walk(r)):
-                nm = ast.unparse(s.node.func) if isinstance(s.node, ast.Call) else ""
-                if nm.startswith("log."):
-                    continue
+    def effect(s):
+        for x in ast.walk(s):
+            if isinstance(x, ast.Call):
+                nm = ast.unparse(x.func)
+                if not nm.startswith("log."):
+                    return True
+            if isinstance(x, ast.Attribute) and isinstance(x.ctx, ast.Store) and pat.match("self.provider", x.value) is not None:
                 return True
-        return any(isinstance(x, ast.Attribute) and isinstance(x.ctx, ast.Store) and pat.match("self.provider", x.value) is not None for x in ast.walk(r))
-    pth = g.reach([n.id for n in st], effect, follow=NORMAL)
-    rep.check(rid, "_do_first_init|flag-last", f, pth is None, "_first_do cleared after the last fallible operation",
-              "the first-step flag is cleared before the cursor restore ran: if that call fails once (disconnect, token, temporary error) the retry skips it, "
-              "the provider stays positioned at 'now' and the fresh cursor overwrites the stored one - everything that changed while the engine was down is skipped",
-              witness=describe_path(pth) if pth else None)
+        return False
+    ok = len(idx) == 1 and len(nested) == 1 and not any(effect(s) for s in block[idx[0] + 1:]) and any(effect(s) for s in block[:idx[0]])
+    rep.check(rid, "first-step|flag-last", ctx.line(f, nested[0]), ok, "_first_do cleared unconditionally, after the last fallible operation of the block",
+              "the first-step flag is cleared before (or only on some paths of) the cursor restore: if that call fails once (disconnect, token, temporary error) the retry skips "
+              "it, the provider stays positioned at 'now' and the fresh cursor overwrites the stored one - everything that changed while the engine was down is skipped")
 
 
 def subpath_lengths_are_normalised(ctx: Ctx, rep: Report, rid: str):
@@ -678,3 +676,121 @@ def definition_holds(ctx: Ctx, rep: Report, rid: str, spec: str, consequence: st
         return
     rep.check(rid, "%s|definition" % spec, f, got == want, "is true exactly when %s" % predform.show(want)[:300],
               "%s is now true when %s ; the state machine was read with: %s . %s" % (spec, predform.show(got)[:500], predform.show(want)[:500], consequence))
+
+
+def creation_dispatch(ctx: Ctx, rep: Report, rid: str):
+    """handle_path_change_or_creation: the peer object is created (create_synced / mkdir_synced) only for a creation, only after
+    check_disjoint_create looked for a clash, a file only after download_changed succeeded; handle_rename only for a non-creation."""
+    f = ctx.prog.func("SyncManager.handle_path_change_or_creation")
+    sync, changed = f.params()[1], f.params()[2]
+    g = ctx.cfg(f)
+    crt = [n for n in g.nodes if node_has_call(n, "self.create_synced($$$)")]
+    mkd = [n for n in g.nodes if node_has_call(n, "self.mkdir_synced($$$)")]
+    ren = [n for n in g.nodes if node_has_call(n, "self.handle_rename($$$)")]
+    chk = [n for n in g.nodes if node_has_call(n, "self.check_disjoint_create($$$)")]
+    dl = [n for n in g.nodes if node_has_call(n, "self.download_changed($$$)")]
+    if not (crt and mkd and ren and dl):
+        raise AnalysisError("handle_path_change_or_creation: create / mkdir / rename / download call missing")
+    if not chk:
+        rep.violation(rid, "creation|clash-check", f, "handle_path_change_or_creation no longer calls check_disjoint_create: a creation is sent to the peer without looking for "
+                      "an object that already has that name there (one of two different files is overwritten / adopted silently)")
+    isc = "%s.is_creation(%s)" % (sync, changed)
+    for what, nodes in (("create_synced", crt), ("mkdir_synced", mkd)):
+        okf = all(fact_in(ctx.facts(f).facts(n), isc, True) for n in nodes)
+        from sa.pathsens import find_path
+        p1 = find_path(g, [g.entry.id], lambda n, nodes=nodes: n in nodes, avoid=lambda n: n in chk, follow=NORMAL)
+        # the clash check must have said "no clash": its true edge leaves
+        tests = [n for n in chk if n.kind == "test"]
+        p2 = None
+        for t in tests:
+            ts = [b for (b, l) in g.succ[t.id] if l == "T"]
+            p2 = p2 or g.reach(ts, lambda n, nodes=nodes: n in nodes, follow=NORMAL, include_src=True)
+        rep.check(rid, "creation|%s" % what, f, okf and p1 is None and p2 is None and bool(tests), "%s only for a creation, after the clash check said no" % what,
+                  "%s can be reached %s: an object is created on the peer without checking for an existing object of that name (or although one was found)" %
+                  (what, "outside `is_creation`" if not okf else "without / against check_disjoint_create"), witness=describe_path(p1 or p2) if (p1 or p2) else None)
+    # a file is created only after a successful download
+    dt = [n for n in dl if n.kind == "test"]
+    p3 = g.reach([g.entry.id], lambda n: n in crt, avoid=lambda n: n in dl, follow=NORMAL)
+    p4 = None
+    for t in dt:
+        neg = isinstance(t.ast, ast.UnaryOp) and isinstance(t.ast.op, ast.Not)
+        bad = [b for (b, l) in g.succ[t.id] if l == ("T" if neg else "F")]
+        p4 = p4 or g.reach(bad, lambda n: n in crt, follow=NORMAL, include_src=True)
+    rep.check(rid, "creation|download-first", f, p3 is None and p4 is None and bool(dt), "create_synced only after download_changed succeeded",
+              "create_synced can run without a successful download of the content: the peer file is created from a missing / stale temp file",
+              witness=describe_path(p3 or p4) if (p3 or p4) else None)
+    okr = all(fact_in(ctx.facts(f).facts(n), isc, False) for n in ren)
+    rep.check(rid, "rename|not-a-creation", f, okr, "handle_rename only when the change is not a creation",
+              "handle_rename is reached for a creation: the engine renames a peer object that was never synced with this one")
+
+
+def embrace_dispatch(ctx: Ctx, rep: Report, rid: str):
+    """embrace_change is a dispatch on the state of the changed side: gone for good -> peer delete; missing -> handle_changed_is_missing;
+    renamed or new -> handle_path_change_or_creation; content differs (or the peer copy is corrupt) -> handle_hash_diff.  Each call is
+    reached under exactly its own condition (plus 'not discarded', 'nothing handled it before', and the negations of the earlier arms)."""
+    from sa.util import extra_facts
+    f = ctx.prog.func("SyncManager.embrace_change")
+    sync, ch, sy = f.params()[1:4]
+    S = {"s": sync, "c": ch, "y": sy}
+    table = {
+        "handle_changed_is_missing": (["{s}[{c}].exists == MISSING"], []),
+        "handle_path_change_or_creation": (["{s}.is_path_change({c}) or {s}.is_creation({c})"], ["{s}[{c}].exists == MISSING"]),
+        "handle_hash_diff": (["{s}[{c}].hash != {s}[{c}].sync_hash or {s}[{y}].is_corrupt and not {s}[{y}].corrupt_gone"], ["{s}[{c}].exists == MISSING"]),
+    }
+    common_false = ["{s}.is_discarded", "{s}[{c}].exists == TRASHED"]
+    for name, (must_true, must_false) in table.items():
+        calls = [n for n in ctx.own_nodes(f) if isinstance(n, ast.Call) and pat.match("self.%s($$$)" % name, n) is not None]
+        if not calls:
+            rep.violation(rid, "embrace_change|%s" % name, f, "embrace_change no longer dispatches to %s" % name)
+            continue
+        for c_ in calls:
+            facts = ctx.facts_at(f, c_)
+            from sa.guards import nnf
+            want_t = [ast.unparse(nnf(pat.compile_pat(t.format(**S)))) for t in must_true]
+            want_f = [t.format(**S) for t in must_false + common_false]
+            allowed = [(t, True) for t in want_t] + [(t, False) for t in want_f] + [("$H is None", True)]
+            have_all = all(fact_in(facts, t, True) for t in want_t) and all(fact_in(facts, t, False) for t in want_f)
+            extra = extra_facts(facts, allowed)
+            args = [ast.unparse(a) for a in c_.args]
+            side_ok = ch in args and sync in args
+            rep.check(rid, "embrace_change|%s" % name, ctx.line(f, c_), have_all and not extra and side_ok, "reached exactly when %s" % " and ".join(want_t),
+                      "%s is dispatched under %s (expected: %s true; %s false; nothing else): the state machine takes the wrong arm for some state of the changed side" %
+                      (name, sorted(facts), want_t, want_f))
+
+
+def uploads_read_the_changed_sides_download(ctx: Ctx, rep: Report, rid: str):
+    """upload_synced / _create_synced send the bytes that were downloaded from the CHANGED side: every temp file they open is
+    `sync[changed].temp_file`, and download_changed keys that temp file to the current content (make_temp_file) before it looks at it."""
+    from sa.util import side_names
+    for spec in ("SyncManager.upload_synced", "SyncManager._create_synced"):
+        f = ctx.prog.func(spec)
+        chn, syn = side_names(ctx, f)
+        sync = [p for p in f.params()[1:] if p not in (chn, syn)]
+        sync = sync[0] if sync else "sync"
+        opens = [n for n in ctx.own_nodes(f) if isinstance(n, ast.Call) and isinstance(n.func, ast.Name) and n.func.id == "open" and n.args]
+        if not opens:
+            raise AnalysisError("%s: no temp file is opened" % spec)
+        for o in opens:
+            ok = pat.match("%s[%s].temp_file" % (sync, chn), o.args[0]) is not None
+            rep.check(rid, "%s|%s" % (f.name, ast.unparse(o)[:50]), ctx.line(f, o), ok, "reads %s[%s].temp_file" % (sync, chn),
+                      "%s opens `%s`: the bytes sent to the peer are not the changed side's download" % (f.name, ast.unparse(o.args[0])))
+    d = ctx.prog.func("SyncManager.download_changed")
+    g = ctx.cfg(d)
+    chn = d.params()[1]
+    sync = d.params()[2]
+    mk = [n for n in g.nodes if node_has_call(n, "self.make_temp_file(%s[%s])" % (sync, chn))]
+    uses = [n for n in g.nodes if n not in mk and cfg_root(n) is not None and any(isinstance(x, ast.Attribute) and x.attr == "temp_file" for x in ast.walk(cfg_root(n)))]
+    pth = g.reach([g.entry.id], lambda n: n in uses, avoid=lambda n: n in mk, follow=NORMAL)
+    rep.check(rid, "download_changed|fresh-temp-name", d, bool(mk) and pth is None, "make_temp_file(sync[changed]) before the temp file is looked at",
+              "download_changed looks at sync[changed].temp_file without re-keying it to the current content first: a download of older content is reused",
+              witness=describe_path(pth) if pth else None)
+    # reuse only when the file is there; otherwise download
+    ex_t = [n for n in g.nodes if n.kind == "test" and any(isinstance(x, ast.Call) and ast.unparse(x.func) == "os.path.exists" for x in ast.walk(n.ast))]
+    dl = [n for n in g.nodes if node_has_call(n, "$P.download($$$)")]
+    okx = bool(ex_t) and bool(dl)
+    for t in ex_t:
+        neg = isinstance(t.ast, ast.UnaryOp) and isinstance(t.ast.op, ast.Not)
+        exists_edge = [b for (b, l) in g.succ[t.id] if l == ("F" if neg else "T")]
+        okx = okx and g.reach(exists_edge, lambda n: n in dl, follow=NORMAL, include_src=True) is None
+    rep.check(rid, "download_changed|reuse-only-existing", d, okx, "an existing temp file is reused, a missing one is downloaded",
+              "download_changed downloads when the temp file exists and reuses it when it does not: the upload that follows finds no file")
